@@ -136,6 +136,7 @@ def run(report, db, tier):
                      'rebuilt in place and follow run-time extensions')
     check_reinit(report, db, F, recs, ref, R4)
     check_no_rebinding(report, db, R4)
+    check_no_memo(report, db, R4)
 
     R1 = report.rule('R08.1', 'the comparison predicates are the strict / '
                      'non-strict chronological order and its compositions')
@@ -295,6 +296,102 @@ def check_no_rebinding(report, db, R4):
                         report.violation(
                             R4, 'attrstore:%s' % t.attr, mod.path, n, None,
                             'version table replaced by attribute store')
+
+
+def check_no_memo(report, db, R4):
+    """The predicates must see a rebuilt table at once: nothing on the way
+    from a predicate to the index table may remember an earlier answer (a
+    memoising decorator, a module-level cache the function fills, a value
+    kept on the function object)."""
+    from ..callgraph import CallGraph
+    cg = CallGraph(db)
+    ctxci = db.get_class('minecraft.networking.connection',
+                         'ConnectionContext')
+    roots = [db.get_func('minecraft.utility', n) for n in REL]
+    roots += [f for f in db.funcs if f.cls is ctxci
+              and f.name.startswith('protocol_')]
+    seen, todo = [], [r for r in roots if r is not None]
+    while todo:
+        f = todo.pop()
+        if f in seen:
+            continue
+        seen.append(f)
+        for cs in cg.sites.get(f, []):
+            for m, _, _ in cs.callees:
+                if m not in seen:
+                    todo.append(m)
+    MEMO = ('functools.lru_cache', 'functools.cache',
+            'functools.cached_property', 'functools.singledispatch')
+    for f in seen:
+        if isinstance(f.node, ast.Lambda):
+            continue
+        for d in f.node.decorator_list:
+            core = d.func if isinstance(d, ast.Call) else d
+            try:
+                ent = db.resolve_dotted(f.module, core) if isinstance(
+                    core, (ast.Name, ast.Attribute)) else None
+            except AnalysisError:
+                ent = None
+            dotted = getattr(ent, 'dotted', None)
+            plain = isinstance(core, ast.Name) and core.id in (
+                'staticmethod', 'classmethod', 'property')
+            if dotted in MEMO or (dotted or '').endswith('cache'):
+                report.violation(
+                    R4, 'memo:%s' % f.qualname, f.path, d, f.qualname,
+                    '%s, which the version predicates call, is memoised '
+                    '(@%s): after a run-time extension and rebuild of the '
+                    'tables it keeps answering with the old positions'
+                    % (f.qualname, ast.unparse(d)))
+            elif not plain and getattr(ent, 'dotted', None) is None and \
+                    not (isinstance(core, ast.Attribute)
+                         and core.attr in ('setter', 'deleter', 'getter')):
+                # an in-repo or unknown decorator: it may wrap the function
+                # in anything
+                tgt = ent if ent is not None else None
+                wraps_cache = False
+                if tgt is not None and hasattr(tgt, 'node'):
+                    wraps_cache = any(
+                        isinstance(x, ast.Dict) or (
+                            isinstance(x, ast.Call) and isinstance(
+                                x.func, ast.Name) and x.func.id == 'dict')
+                        for x in ast.walk(tgt.node))
+                if wraps_cache:
+                    report.violation(
+                        R4, 'memo:%s' % f.qualname, f.path, d, f.qualname,
+                        '%s is wrapped by @%s, which keeps a dictionary of '
+                        'earlier answers' % (f.qualname, ast.unparse(d)))
+        # a cache the function fills itself: a store into a subscript of a
+        # module-level name or of an attribute of the function / its class
+        gl = set(f.module.bindings) if hasattr(f.module, 'bindings') else set()
+        for x in ast.walk(f.node):
+            tgt = None
+            if isinstance(x, ast.Subscript) and isinstance(
+                    x.ctx, ast.Store):
+                tgt = x.value
+            elif isinstance(x, ast.Call) and isinstance(
+                    x.func, ast.Attribute) and x.func.attr in (
+                        'setdefault', 'update', '__setitem__'):
+                tgt = x.func.value
+            if tgt is None:
+                continue
+            base = tgt
+            while isinstance(base, ast.Attribute):
+                base = base.value
+            local = set(a.arg for a in ast.walk(f.node.args)
+                        if isinstance(a, ast.arg)) | set(
+                n.id for n in ast.walk(f.node) if isinstance(n, ast.Name)
+                and isinstance(n.ctx, ast.Store))
+            if isinstance(base, ast.Name) and base.id not in local and \
+                    base.id not in TABLES:
+                report.violation(
+                    R4, 'memo:%s' % f.qualname, f.path, x, f.qualname,
+                    '%s, which the version predicates call, stores into %s: '
+                    'a cache of earlier answers survives a rebuild of the '
+                    'tables' % (f.qualname, ast.unparse(tgt)))
+    report.ok(R4, 'no memoisation between the predicates and the index '
+              'table (%d functions reachable)' % len(seen))
+    report.floor('functions reachable from the version predicates',
+                 len(seen), 7)
 
 
 # ---------------------------------------------------------------------------
